@@ -19,7 +19,6 @@ structure Sess where
   it  : SList.Iter := {}
   zit : SList.ZipIter := {}
   sit : LSeq.Cursor := {}
-  dflt : List Bool := [false, false, false, false]   -- slot built on the C library allocator: it cannot be refused
 
 def fmtPtr (n : Nat) : Ptr → String
   | none => "-"
@@ -188,12 +187,7 @@ def iterStep (s : Sess) (c : Cmd) (m : Mem) : Sess × String × String :=
 /-- returns the new session, the spec line and the model line -/
 def step (s : Sess) (c : Cmd) : Sess × String × String :=
   let k := c.nat "o" 0
-  let s := if c.op == "new_default" && (s.model.getD k none).isNone then { s with dflt := s.dflt.set k true }
-           else if c.op == "new" && (s.model.getD k none).isNone then { s with dflt := s.dflt.set k false } else s
-  -- a derived list inherits the allocator of its source
-  let s := if c.op.startsWith "mk_" && (s.model.getD (c.nat "to" 1) none).isNone then { s with dflt := s.dflt.set (c.nat "to" 1) (s.dflt.getD k false) } else s
-  let useK := if c.op.startsWith "it_" || c.op.startsWith "dit_" || c.op.startsWith "zit_" then s.itO else k
-  let m := s.mem.begin (if s.dflt.getD useK false then [] else c.sched)
+  let m := s.mem.begin c.sched
   let from_ := c.nat "from" 1
   let to := c.nat "to" 1
   let v := c.arg 0
@@ -206,7 +200,7 @@ def step (s : Sess) (c : Cmd) : Sess × String × String :=
     match getM s k with
     | some _ => fin1 { s with mem := m } "st=- busy"
     | none =>
-      let r := SList.new m
+      let r := SList.new (if c.op == "new_default" then .libc else .conf) m
       let sx11 := setM s k r.2.1
       let s' := { sx11 with mem := (r.2.2) }
       let s' := setS s' k (if refused then none else some [])
@@ -286,7 +280,7 @@ def step (s : Sess) (c : Cmd) : Sess × String × String :=
       let q : Stat × Option (List Nat) := if q.1 == .ok && refused then (.errAlloc, none) else q
       let h (st : Stat) (o : Option (List Nat)) := match o with | some xs => s!"{fmtStat st} arr={fmtList xs}" | none => fmtStat st
       -- the harness (the caller) releases the array it was handed
-      fin { s with mem := if r.1 == .ok then r.2.2.free else r.2.2 } (h q.1 q.2) (h r.1 r.2.1)
+      fin { s with mem := if r.1 == .ok then r.2.2.freeT l.triple else r.2.2 } (h q.1 q.2) (h r.1 r.2.1)
     | "foreach" => fin s s!"st=- cb={fmtList a}" s!"st=- cb={fmtList (SList.foreach l)}"
     | "filter_mut" =>
       let r := SList.filterMut LSeq.predEven l m
